@@ -10,6 +10,12 @@ Clauses (violation ids)
                          one of another design than the specifier names
   core.extra-assembly    the system holds a different number of assemblies than the grid names (edge assemblies on the
                          120-degree line of a third core are documented as removed and not expected)
+  core.location-design.cartesian-ragged-map / core.extra-assembly.cartesian-ragged-map / pin.locations.cartesian-ragged-map
+                         the same clauses where the grid is a Cartesian TEXT map with holes or rows of unequal length
+                         (narrowed top / bottom row, one wide middle row, random holes; trailing placeholders left off as
+                         armi's own writer does).  Expected index of a token, from the text alone: (column, row from the
+                         bottom), for a full core minus (nx // 2, ny // 2) with nx = the widest row (placeholders
+                         counted), ny = the number of rows - see C18_asciimaps.py, grid.lattice-index
   assem.block-count / assem.block-order / assem.heights / assem.xstypes / assem.meshpoints / assem.flags
   comp.names             the block does not hold exactly the named components (merged ones excepted)
   comp.shape / comp.material / comp.temps / comp.mult / comp.dims / comp.link / comp.flags
@@ -35,6 +41,7 @@ import io
 import json
 import logging
 import os
+import random
 import re
 import sys
 import tempfile
@@ -63,11 +70,13 @@ B = Bounded(
     "Tinput / Thot / mult / dimension values / linked dimensions / custom isotopics; every third document: one mass-fraction isotopic shared by the UZr fuel of several blocks and "
     "assemblies with U235_wt_frac/ZR_wt_frac (by block or by component) reaching it in SOME blocks only, before and after unmodified uses; 1-3 block designs, 1-3 assembly designs of "
     "1-3 blocks; hex third / hex full flats-up / hex corners-up full / Cartesian full+quarter core grids given as lattice-map "
-    "text or explicit grid contents; optional pin lattice; optional SFP), each constructed twice and compared with a plain-YAML "
+    "text or explicit grid contents; Cartesian text maps in 5 of 6 such documents with rows of unequal length / holes (top or bottom row narrowed, one wide middle "
+    "row, random holes; trailing placeholders left off in 3 of 4) and at least two alternating designs; optional pin lattice (hex corners-up; Cartesian full text map "
+    "with ragged rows in every second Cartesian-map document); optional SFP), each constructed twice and compared with a plain-YAML "
     "reading; plus crafted inconsistent documents; non-trivial = distinct (document, checked object)",
     bound="shipped: smallestTestReactor, refTestCartesian, armiRun(refSmallReactor+core/sfp grids), detailedAxialExpansion, c5g7 "
     "(quick and thorough), + anl-afci-177, zpprTest, godiva (thorough); generated: 150 documents (quick) / 1500 (thorough), core <= 3 rings "
-    "/ 4x4; bad documents: 16 kinds x (1 quick / 5 thorough) base documents",
+    "/ 4x4 (ragged Cartesian text maps: 2x2..5x5, Cartesian pin maps 2x2..5x5); bad documents: 16 kinds x (1 quick / 5 thorough) base documents",
 )
 THOROUGH = B.thorough()
 rng = B.rng
@@ -192,6 +201,15 @@ def plainGridContents(g):
     return {k: str(v) for k, v in out.items() if v != "-"}
 
 
+def raggedTag(g):
+    """'.cartesian-ragged-map' for a Cartesian grid section given as a text map with holes / rows of unequal length
+    (circumstance named in violation ids), else ''."""
+    if not g or g.get("grid contents") or str(g.get("geom", "hex")).strip().lower() != "cartesian":
+        return ""
+    rows = [ln.split() for ln in str(g.get("lattice map") or "").strip().splitlines()]
+    return ".cartesian-ragged-map" if rows and (len({len(t) for t in rows}) > 1 or any("-" in t for t in rows)) else ""
+
+
 class Doc:
     """The document as plain YAML, with the handful of conventions of the blueprint format."""
 
@@ -282,7 +300,7 @@ def massFractions(c):
     return {n: v / tot for n, v in m.items()} if tot else {}
 
 
-def checkComponent(doc, case, where, assemDict, k, bDict, b, cName, cDict, pinContents):
+def checkComponent(doc, case, where, assemDict, k, bDict, b, cName, cDict, pinContents, pinTag=""):
     comps = Doc.components(bDict)
     c = next((x for x in b if x.name == cName), None)
     if c is None:
@@ -317,7 +335,7 @@ def checkComponent(doc, case, where, assemDict, k, bDict, b, cName, cDict, pinCo
         found = {(int(loc.i), int(loc.j)) for loc in sl} if isinstance(sl, MultiIndexLocation) else set()  # else: not on the block grid
         if expected:
             nLattice = len(expected)
-            check(found == expected, "pin.locations", "component is not on exactly the block-grid cells carrying its latticeIDs", dict(inp, missing=sorted(expected - found)[:5], extra=sorted(found - expected)[:5]))
+            check(found == expected, "pin.locations" + pinTag, "component is not on exactly the block-grid cells carrying its latticeIDs", dict(inp, missing=sorted(expected - found)[:5], extra=sorted(found - expected)[:5]))
     # multiplicity and dimensions
     for key in c.DIMENSION_NAMES:
         if key not in cDict or cDict[key] is None:
@@ -442,16 +460,17 @@ def checkAssembly(doc, case, a, designName, where, cs):
             continue
         expectedNames = sorted(n for n, c in comps.items() if not c.get("mergeWith"))
         check(sorted(c.name for c in b) == expectedNames, "comp.names", "block does not hold exactly the named components", dict(w, expected=expectedNames, found=sorted(c.name for c in b)))
-        pinContents = None
+        pinContents, pinTag = None, ""
         if bd.get("grid name") is not None:
             g = doc.grids.get(str(bd["grid name"]))
             pinContents = plainGridContents(g) if g else None
+            pinTag = raggedTag(g)
             check(b.spatialGrid is not None, "pin.locations", "block with a grid name has no spatial grid", w)
         for cName, cDict in comps.items():
             if cDict.get("mergeWith"):
                 skipped["merged components"] = skipped.get("merged components", 0) + 1
                 continue
-            checkComponent(doc, case, dict(w), ad, k, bd, b, cName, cDict, pinContents)
+            checkComponent(doc, case, dict(w), ad, k, bd, b, cName, cDict, pinContents, pinTag)
 
 
 def systemsOf(r):
@@ -477,6 +496,7 @@ def checkReactor(doc, r, case, cs):
             check(ij_ not in byLoc, "core.extra-assembly", "two assemblies at one location", {"case": case, "system": sysName, "location": list(ij_)})
             byLoc[ij_] = a_
         isThird = "third" in str(g.get("symmetry", "third periodic")).lower() and str(g.get("geom", "hex")).lower().startswith("hex")
+        ragged = raggedTag(g)  # circumstance named in the violation id
         nExpected = 0
         for (i, j), spec in sorted(contents.items()):
             where = {"case": case, "system": sysName, "location": [i, j], "specifier": spec}
@@ -491,11 +511,11 @@ def checkReactor(doc, r, case, cs):
             a = byLoc.get((i, j))
             design = doc.bySpecifier.get(spec)
             B.case((case, sysName, i, j), {"case": case, "system": sysName, "location": [i, j], "specifier": spec})
-            if not check(a is not None and design is not None and a.getType() == design, "core.location-design", "location named in the grid does not hold an assembly of the specified design", dict(where, expected=design, found=(a.getType() if a is not None else None))):
+            if not check(a is not None and design is not None and a.getType() == design, "core.location-design" + ragged, "location named in the grid does not hold an assembly of the specified design", dict(where, expected=design, found=(a.getType() if a is not None else None))):
                 continue
             checkAssembly(doc, case, a, design, where, cs)
         if not doc.duplicateSpecifiers:
-            check(len(container) == nExpected, "core.extra-assembly", "number of assemblies differs from the number of named locations", {"case": case, "system": sysName, "expected": nExpected, "found": len(container)})
+            check(len(container) == nExpected, "core.extra-assembly" + ragged, "number of assemblies differs from the number of named locations", {"case": case, "system": sysName, "expected": nExpected, "found": len(container)})
 
 
 def isotopicDefinition(ci):
@@ -623,6 +643,7 @@ def runCase(case, text, build, sample=None):
 
 timings = {}
 caseTexts = {}
+raggedKinds = {}
 
 # =============================================================================================== generated documents
 HEX_PITCH = 16.75
@@ -782,6 +803,9 @@ def genDocument(rng, n):
     desc["isotopics"] = isoKind
     desc["sharedIsotopicWithPartialMods"] = shared
     usePinGrid = (not cart) and rng.random() < 0.25
+    # Cartesian pin lattices (text maps with rows of unequal length): every second Cartesian-map document, own generator
+    cartPins = random.Random("cartpins-%d-%d" % (B.seed, n)) if (cart and "map" in gridKind and (n // 9) % 2 == 0) else None
+    usePinGrid = usePinGrid or cartPins is not None
     desc["pinGrid"] = usePinGrid
     # block designs
     nBlockDesigns = rng.randint(1, 3)
@@ -869,6 +893,7 @@ def genDocument(rng, n):
             L.append("      ZR_wt_frac: [%s]" % ", ".join((repr(float("%.3f" % rng.uniform(0.05, 0.12))) if c[1] in fuelLike else "''") for c in chosen))
     # core grid
     R = rng.randint(1, 3)
+    ragged, hr = "no", None
     if gridKind.startswith("hex third"):
         cells, geom, sym = thirdHexCells(R), "hex", "third periodic"
     elif gridKind.startswith("hex full"):
@@ -877,11 +902,25 @@ def genDocument(rng, n):
         cells, geom, sym = fullHexCells(R), "hex_corners_up", "full"
     else:
         nx, ny = rng.randint(1, 4), rng.randint(1, 4)
+        if "map" in gridKind:
+            # Cartesian text maps: five of six documents get rows of unequal length / holes (see the drawing below).  Own
+            # generator (hr) so that the documents of the other families do not change; these maps are 2..5 wide and high.
+            hr = random.Random("ragged-%d-%d" % (B.seed, n))
+            ragged = ["narrow-top", "random-holes", "no", "narrow-bottom", "wide-middle", "narrow-top"][(n // 9) % 6]
+            if ragged != "no":
+                nMain = nx * ny  # draws of the shared generator that the plain rectangle would have used
+                nx, ny = hr.randint(2, 5), hr.randint(3 if ragged == "wide-middle" else 2, 5)
         if "quarter" in gridKind:
             cells, geom, sym = [(i, j) for i in range(nx) for j in range(ny)], "cartesian", "quarter reflective"
         else:
             cells, geom, sym = [(i + int(-nx / 2), j + int(-ny / 2)) for i in range(nx) for j in range(ny)], "cartesian", "full"
-    contents = {c: rng.choice(specs) for c in cells}
+    if ragged == "no":
+        contents = {c: rng.choice(specs) for c in cells}
+    else:  # keep the shared generator in step; at least two designs alternate so that a shifted map is visible
+        for _ in range(nMain):
+            rng.choice(specs)
+        off = hr.randrange(2)
+        contents = {c: (specs[(k_ + off) % len(specs)] if hr.random() < 0.7 else hr.choice(specs)) for k_, c in enumerate(sorted(cells))}
     if "contents" in gridKind and len(contents) > 2 and rng.random() < 0.5:  # holes (explicit lists only: any pattern is expressible)
         for c in rng.sample(sorted(contents), rng.randint(1, max(1, len(contents) // 3))):
             if c != (0, 0):
@@ -920,9 +959,32 @@ def genDocument(rng, n):
             m.gridContentsToAscii()
             ml = str(m).rstrip("\n").splitlines()
         else:
+            # Cartesian text map (own drawing: one row per j, top row first, one token per i, '-' = hole).  Rows of
+            # unequal length: the top / the bottom row / all rows but a middle one narrowed from the right, or random
+            # holes; in 3 of 4 such documents the placeholders after the last specifier of a row are left off (the
+            # form armi's own map writer produces).
             xs_ = sorted({c[0] for c in contents})
             ys_ = sorted({c[1] for c in contents})
-            ml = [" ".join(contents[(x, y)] for x in xs_) for y in reversed(ys_)]
+            if ragged in ("narrow-top", "narrow-bottom", "wide-middle"):
+                rowsNarrow = {"narrow-top": ys_[-1:], "narrow-bottom": ys_[:1], "wide-middle": [y for y in ys_ if y != ys_[len(ys_) // 2]]}[ragged]
+                keepCols = hr.randint(1, len(xs_) - 1)
+                for y in rowsNarrow:
+                    for x in xs_[keepCols:]:
+                        if (x, y) != (0, 0):
+                            del contents[(x, y)]
+            elif ragged == "random-holes":
+                for c in hr.sample(sorted(contents), hr.randint(1, max(1, len(contents) // 2))):
+                    if c != (0, 0):
+                        del contents[c]
+            trim = ragged != "no" and hr.random() < 0.75
+            ml = []
+            for y in reversed(ys_):
+                toks = [contents.get((x, y), "-") for x in xs_]
+                while trim and len(toks) > 1 and toks[-1] == "-":
+                    toks.pop()
+                ml.append(" ".join(toks))
+            desc["cartesianMapRows"] = ragged + ("/trailing placeholders left off" if trim else "")
+            raggedKinds[desc["cartesianMapRows"]] = raggedKinds.get(desc["cartesianMapRows"], 0) + 1
         for ln in ml:
             L.append("      " + ln)
     if useSfp:
@@ -933,7 +995,34 @@ def genDocument(rng, n):
         L.append("    grid contents:")
         for i, j in [(0, 0), (1, 0), (0, 1)][: rng.randint(1, 3)]:
             L.append("      [%d, %d]: %s" % (i, j, rng.choice(specs)))
-    if usePinGrid:
+    if cartPins is not None:
+        hp = cartPins
+        px, py = hp.randint(2, 5), hp.randint(2, 5)
+        pc = {(x - px // 2, y - py // 2): hp.choice(["F", "F", "F", "G", "H"]) for x in range(px) for y in range(py)}
+        pc[(0, 0)] = "G"
+        kind_ = hp.choice(["narrow-top", "narrow-top", "narrow-bottom", "random-holes", "rect"])
+        if kind_ in ("narrow-top", "narrow-bottom"):
+            y = (py - 1 - py // 2) if kind_ == "narrow-top" else -(py // 2)
+            for x in range(hp.randint(1, px - 1), px):
+                pc.pop((x - px // 2, y) if (x - px // 2, y) != (0, 0) else None, None)
+        elif kind_ == "random-holes":
+            for c in hp.sample(sorted(pc), hp.randint(1, len(pc) // 2)):
+                if c != (0, 0):
+                    del pc[c]
+        trimP = hp.random() < 0.75
+        L.append("  pins:")
+        L.append("    geom: cartesian")
+        L.append("    symmetry: full")
+        L.append("    lattice pitch: {x: 1.6, y: 1.6}")
+        L.append("    lattice map: |")
+        for y in reversed(range(py)):
+            toks = [pc.get((x - px // 2, y - py // 2), "-") for x in range(px)]
+            while trimP and len(toks) > 1 and toks[-1] == "-":
+                toks.pop()
+            L.append("      " + " ".join(toks))
+        desc["cartesianPinMapRows"] = kind_ + ("/trailing placeholders left off" if trimP else "")
+        raggedKinds["pins: " + desc["cartesianPinMapRows"]] = raggedKinds.get("pins: " + desc["cartesianPinMapRows"], 0) + 1
+    elif usePinGrid:
         Rp = rng.randint(2, 3)
         pc = {c: rng.choice(["F", "F", "F", "G", "H"]) for c in fullHexCells(Rp)}
         pc[(0, 0)] = "G"
@@ -1173,6 +1262,7 @@ for n in range(NGEN):
     gridKinds[desc["grid"]] = gridKinds.get(desc["grid"], 0) + 1
 B.extra["generated_built"] = nBuilt
 B.extra["generated_grid_kinds"] = gridKinds
+B.extra["generated_cartesian_map_rows"] = dict(sorted(raggedKinds.items()))
 
 # =============================================================================================== run: inconsistent documents
 for rep in range(5 if THOROUGH else 1):
